@@ -210,11 +210,65 @@ def vogp_ad_runs(ctx, viol, st):
                 break
 
 
+def big_tree_probe(ctx, viol, st):
+    """deterministic: the modeling and evaluate_refine phases (public methods) alternated until the tree has well over 257
+    nodes and nodes numbered above 256 have been refined; after every call the refined node is gone from S and P, its
+    children are in the set it was in, and the active leaves have pairwise disjoint cells of total volume 1 (nothing is
+    discarded in this history)"""
+    import random
+    import vopy.algorithms.vogp_ad as mod
+    from vopy.algorithms import VOGP_AD
+    from vopy.order import ComponentwiseOrder
+    rng = random.Random(1818)
+    FORCE_DEPTH[0] = 6
+    prob, depth = make_problem(rng, 2)
+    FORCE_DEPTH[0] = None
+    stub = StubGP(prob, 2.0)
+    old = mod.get_gpytorch_model_w_known_hyperparams
+    mod.get_gpytorch_model_w_known_hyperparams = lambda *a, **k: stub
+    try:
+        algo = VOGP_AD(0.1, 0.1, prob, ComponentwiseOrder(2), 0.01, conf_contraction=32)
+    finally:
+        mod.get_gpytorch_model_w_known_hyperparams = old
+    ds = algo.design_space
+    refined = set(); high = 0
+    info = {"kind": "bigtree", "depth_max": depth}
+    for it in range(400 if ctx.quick else 1200):
+        algo.beta = algo.compute_beta()
+        algo.modeling()
+        S0, P0, n0 = set(algo.S), set(algo.P), len(ds.points)
+        try:
+            algo.evaluate_refine()
+        except Exception as e:
+            viol.append({"signature": "vogp_ad-raised", "message": f"evaluate_refine call {it} raised {type(e).__name__}: {str(e)[:120]}", "replay": info}); return
+        st["vogp_ad_steps"] += 1
+        S1, P1, n1 = set(algo.S), set(algo.P), len(ds.points)
+        if n1 > n0:
+            new = set(range(n0, n1))
+            par = [i for i in (S0 | P0) if ds.point_depths[i] + 1 == ds.point_depths[n0]
+                   and all(ds.cells[i][k][0] <= ds.cells[n0][k][0] and ds.cells[n0][k][1] <= ds.cells[i][k][1] for k in range(2))]
+            if len(par) != 1 or len(new) != 4:
+                viol.append({"signature": "refine-bookkeeping", "message": f"call {it}: {len(new)} nodes appended, parents found {par}", "replay": info}); return
+            p = par[0]; refined.add(p); high += 1 if p > 256 else 0
+            if p in S1 or p in P1:
+                viol.append({"signature": "active-not-leaf", "message": f"call {it}: node {p} was refined into {sorted(new)} but is still in {'S' if p in S1 else 'P'} (tree of {n1} nodes)", "replay": info}); return
+            if not ((p in S0 and new <= S1) or (p in P0 and new <= P1)):
+                viol.append({"signature": "children-in-other-set", "message": f"call {it}: children {sorted(new)} of node {p} are not in the set it was in", "replay": info}); return
+            leaves = sorted(S1 | P1)
+            vol = sum(np.prod([F(b) - F(a) for a, b in ds.cells[i]]) for i in leaves)
+            if vol != 1 or (S1 | P1) & refined:
+                viol.append({"signature": "leaves-do-not-tile", "message": f"call {it}: active leaves have total volume {float(vol)} (tree of {n1} nodes, refined nodes still active: {sorted((S1 | P1) & refined)[:3]})", "replay": info}); return
+        if high >= 6 and n1 > 330:
+            break
+    st["big_tree_nodes"] = len(ds.points); st["big_tree_refined_above_256"] = high
+
+
 def run(ctx):
     viol = []
     st = {"refinements": 0, "vogp_ad_steps": 0}
     refine_cases(ctx, viol, st)
     vogp_ad_runs(ctx, viol, st)
+    big_tree_probe(ctx, viol, st)
     return {"evaluations": st["refinements"] + st["vogp_ad_steps"], "distinct_nontrivial": st["refinements"] + st["vogp_ad_steps"], "traces": 6 if ctx.quick else 60,
             "rule": "refine_design on random leaves in dimensions 1-3 (children ids, cells, centre points, depths, inherited regions compared exactly with the extracted model); VOGP_AD runs on user-defined continuous problems (1-2 inputs, max depths 2-4, three cones, several eps / contractions) with a stub GP, after every step: active nodes are leaves, children replace the refined node in the same set, declared designs at max depth, no depth beyond max, active + discarded leaves have total volume 1 and pairwise disjoint interiors; non-trivial = every refinement / step",
             "samples": [{"kind": "refine", "d": 2}], "violations": viol, "extra": st}
